@@ -100,6 +100,23 @@ def mutables(x, acc, keep, path="$"):
             mutables(x.subobservables, acc, keep, path + ".subobservables")
 
 
+def pauli_arrays(x, path="$"):
+    """(path, ndarray) for the symplectic arrays of every PauliList reachable from x (memory sharing is not object identity)"""
+    from qiskit.quantum_info import PauliList
+    out = []
+    if isinstance(x, PauliList):
+        out += [(path + ".z", x.z), (path + ".x", x.x), (path + ".phase", x.phase)]
+    elif isinstance(x, dict):
+        for k, v in x.items():
+            out += pauli_arrays(v, path + "[%r]" % (k,))
+    elif isinstance(x, (list, tuple)):
+        for k, v in enumerate(x):
+            out += pauli_arrays(v, path + "[%d]" % k)
+    elif hasattr(x, "subobservables") and x.subobservables is not None:
+        out += pauli_arrays(x.subobservables, path + ".subobservables")
+    return out
+
+
 def norm(p):
     return re.sub(r"\[[^\]]*\]", "[]", p)
 
@@ -132,4 +149,15 @@ def audit(fn, args, keep):
     for i, op in outa.items():
         if i in ina:
             classes.setdefault(classify(op, ina[i]), (op, ina[i]))
+    # observables: returned Pauli lists must not be numpy views of the caller's (or of each other)
+    in_arr = [pa for k, a in enumerate(args) for pa in pauli_arrays(a, "arg%d" % k)]
+    out_arr = pauli_arrays(out, "out")
+    for po, ao in out_arr:
+        for pi, ai in in_arr:
+            if ao.size and ai.size and np.shares_memory(ao, ai):
+                classes.setdefault("other:view:" + norm(po) + "<-" + norm(pi), (po, pi))
+    for a_, (po, ao) in enumerate(out_arr):
+        for pb, ab in out_arr[a_ + 1:]:
+            if ao.size and ab.size and po.rsplit(".", 1)[0] != pb.rsplit(".", 1)[0] and np.shares_memory(ao, ab):
+                classes.setdefault("other:view:" + norm(po) + "<->" + norm(pb), (po, pb))
     return out, before != after, classes
